@@ -94,16 +94,16 @@ def run(ctx):
     except Unknown as x:
         ctx.need(False, "cannot fold sanitise_emit_name: {}".format(x))
     es = index.func("cdd.compound.exmod_utils._emit_symbol")
-    lam_assign = [
-        n
-        for n in iter_own(es.node)
-        # the local holding the dispatched emitter: the one assignment whose value sanitises emit_name and getattr()s
-        if isinstance(n, ast.Assign)
-        and len(n.targets) == 1
-        and isinstance(n.targets[0], ast.Name)
-        and "sanitise_emit_name(emit_name)" in norm(n.value)
-        and "getattr(" in norm(n.value)
-    ]
+    from ..defuse import expand_aliases
+
+    # the local holding the dispatched emitter: the one assignment whose value — explaining variables read through —
+    # sanitises emit_name and getattr()s
+    lam_assign = []
+    for n in iter_own(es.node):
+        if isinstance(n, ast.Assign) and len(n.targets) == 1 and isinstance(n.targets[0], ast.Name):
+            full = expand_aliases(es, n.value)
+            if "sanitise_emit_name(emit_name)" in norm(full) and "getattr(" in norm(n.value):
+                lam_assign.append(ast.Assign(targets=n.targets, value=full))
     ctx.need(len(lam_assign) == 1, "emitter lookup vanished from _emit_symbol")
     from ..dispatch import eval_return
 
